@@ -54,7 +54,7 @@ class Gen:
                 else:
                     ps.append(("t", t))
             elif k < 0.75:
-                cp = self.r.choice([65, 233, 0x1D4B3, 9, 10, 13, 32, 60, 38, 34, 39])
+                cp = self.r.choice([65, 233, 0x1D4B3, 9, 10, 13, 32, 60, 38, 34, 39, 37, 38])
                 if self.r.random() < 0.5:
                     ps.append(("c", str(cp), 10))
                 else:
